@@ -15,11 +15,11 @@ pub fn anyhow_error() -> Error { Error }
 
 /// R6 (partial mode): a panic is a non-returning call; contracts then read "if the call returns".
 #[verifier::external_body]
-pub fn diverge() -> ! { panic!() }
+pub fn vx_diverge() -> ! { panic!() }
 
 /// R6 (total mode): a panic site must be proved unreachable.
 #[verifier::external_body]
-pub fn unreached() -> !
+pub fn vx_unreached() -> !
     requires false
 { panic!() }
 
